@@ -51,27 +51,45 @@ def cpu_has(*flags):
 
 # name -> (toolchain, cargo features, profile, rustflags)
 CONFIGS = {
-    "sse2-rel": dict(tc=None, features=["interop"], profile="release", rustflags=""),
-    "sse2-dbg": dict(tc=None, features=["interop"], profile="dev", rustflags=""),
-    "scalar": dict(tc=None, features=["interop", "scalar-math"], profile="release", rustflags=""),
-    "coresimd": dict(tc="nightly", features=["interop", "core-simd"], profile="release", rustflags=""),
+    "sse2-rel": dict(tc=None, features=["std", "bytecheck", "interop"], profile="release", rustflags=""),
+    "sse2-dbg": dict(tc=None, features=["std", "bytecheck", "interop"], profile="dev", rustflags=""),
+    "scalar": dict(tc=None, features=["std", "bytecheck", "interop", "scalar-math"], profile="release", rustflags=""),
+    "coresimd": dict(tc="nightly", features=["std", "bytecheck", "interop", "core-simd"], profile="release", rustflags=""),
     # rustflags of the two `native*` entries are filled in by native_rustflags(): +fma,+avx2 and every other
     # `target_feature = ".."` atom the working tree's sources mention that this CPU has
-    "native": dict(tc=None, features=["interop"], profile="release", rustflags="-C target-feature=+fma,+avx2"),
+    "native": dict(tc=None, features=["std", "bytecheck", "interop"], profile="release", rustflags="-C target-feature=+fma,+avx2"),
     # cargo features that switch code paths are build-time inputs like target features: `fast-math` (together with the
     # target features, its cfg gates are conjunctions of the two) ...
-    "native-fast": dict(tc=None, features=["interop", "fast-math"], profile="release", rustflags="-C target-feature=+fma,+avx2"),
+    "native-fast": dict(tc=None, features=["std", "bytecheck", "interop", "fast-math"], profile="release", rustflags="-C target-feature=+fma,+avx2"),
     # ... and `cuda` (alignment attributes: changes size / padding of the 2- and 4-lane types in both layouts)
     # `debug-glam-assert`: the same assertions, compiled in only together with debug_assertions
-    "sse2-dbg-assert": dict(tc=None, features=["interop", "debug-glam-assert"], profile="dev", rustflags=""),
-    "cuda": dict(tc=None, features=["interop", "cuda"], profile="release", rustflags=""),
-    "scalar-cuda": dict(tc=None, features=["interop", "scalar-math", "cuda"], profile="release", rustflags=""),
+    "sse2-dbg-assert": dict(tc=None, features=["std", "bytecheck", "interop", "debug-glam-assert"], profile="dev", rustflags=""),
+    # the op table of the 27 integer vector types instead of the float one (same simulator, GLAMSIM_OPS selects the table)
+    "int-rel": dict(tc=None, features=["std", "bytecheck", "interop"], profile="release", rustflags="", ops="int"),
+    "int-dbg": dict(tc=None, features=["std", "bytecheck", "interop"], profile="dev", rustflags="", ops="int"),
+    # glam without its default `std` feature (math through libm via `nostd-libm`): the `not(feature = "std")` arms
+    "nostd": dict(tc=None, features=["interop", "bytecheck", "nostd-libm"], profile="release", rustflags=""),
+    # rkyv without glam's `bytecheck` feature: the `not(feature = "bytecheck")` arm of impl_rkyv.rs
+    "nocheck": dict(tc=None, features=["std", "interop"], profile="release", rustflags=""),
+    # the scalar layout in the dev profile (debug_assertions x scalar-math)
+    "scalar-dbg": dict(tc=None, features=["std", "bytecheck", "interop", "scalar-math"], profile="dev", rustflags=""),
+    # feature variant x dev profile: overflow checks and debug assertions are build-time inputs that no cfg predicate names
+    "coresimd-dbg": dict(tc="nightly", features=["std", "bytecheck", "interop", "core-simd"], profile="dev", rustflags=""),
+    "native-fast-dbg": dict(tc=None, features=["std", "bytecheck", "interop", "fast-math"], profile="dev", rustflags="-C target-feature=+fma,+avx2"),
+    "nostd-dbg": dict(tc=None, features=["interop", "bytecheck", "nostd-libm"], profile="dev", rustflags=""),
+    "cuda": dict(tc=None, features=["std", "bytecheck", "interop", "cuda"], profile="release", rustflags=""),
+    "scalar-cuda": dict(tc=None, features=["std", "bytecheck", "interop", "scalar-math", "cuda"], profile="release", rustflags=""),
     # glam's optional precondition assertions compiled in: an assertion that looks at a padding lane makes the
     # panic / no-panic outcome depend on it (C08 does not restrict itself to builds without glam-assert)
-    "sse2-assert": dict(tc=None, features=["interop", "glam-assert"], profile="release", rustflags=""),
+    "sse2-assert": dict(tc=None, features=["std", "bytecheck", "interop", "glam-assert"], profile="release", rustflags=""),
     # the `libm` math backend instead of std (src/f32/math.rs, src/f64/math.rs have a separate arm for it)
-    "libm": dict(tc=None, features=["interop", "libm"], profile="release", rustflags=""),
+    "libm": dict(tc=None, features=["std", "bytecheck", "interop", "libm"], profile="release", rustflags=""),
 }
+
+
+# everything the four quick tiers build (the monitors - Miri, ASan - are built by the checks that use them)
+QUICK_CONFIGS = ["sse2-rel", "sse2-dbg", "scalar", "scalar-dbg", "coresimd", "coresimd-dbg", "native-fast", "nostd", "nostd-dbg",
+                 "sse2-assert", "sse2-dbg-assert", "cuda", "scalar-cuda", "nocheck", "int-rel", "int-dbg"]
 
 
 def repo_tag():
@@ -102,8 +120,8 @@ def target_dir(cfg):
     return os.path.join(TARGET_ROOT, repo_tag(), cfg)
 
 
-BACKEND_FEATURE = {"sse2-dbg-assert": None, "native-fast": None, "cuda": None, "scalar-cuda": "scalar-math", "libm": None, "sse2-assert": None, "sse2-rel": None, "sse2-dbg": None, "native": None, "scalar": "scalar-math", "coresimd": "core-simd",
-                   "miri": None, "miri-rel": None, "miri-scalar": "scalar-math", "miri-coresimd": "core-simd", "asan": None}
+BACKEND_FEATURE = {"coresimd-dbg": "core-simd", "native-fast-dbg": None, "nostd-dbg": None, "nocheck": None, "nostd": None, "scalar-dbg": "scalar-math", "int-rel": None, "int-dbg": None, "sse2-dbg-assert": None, "native-fast": None, "cuda": None, "scalar-cuda": "scalar-math", "libm": None, "sse2-assert": None, "sse2-rel": None, "sse2-dbg": None, "native": None, "scalar": "scalar-math", "coresimd": "core-simd",
+                   "miri": None, "miri-int": None, "miri-rel": None, "miri-scalar": "scalar-math", "miri-coresimd": "core-simd", "asan": None}
 _ops = {}
 _ops_lock = __import__("threading").Lock()
 
@@ -165,6 +183,8 @@ def build(cfg, extra_env=None):
         env["RUSTFLAGS"] = c["rustflags"]
     env["GLAMSIM_OPS"] = gen_ops(cfg)[0]
     env["GLAMSIM_INT"] = os.path.join(os.path.dirname(env["GLAMSIM_OPS"]), "int_generated.rs")
+    if c.get("ops") == "int":
+        env["GLAMSIM_OPS"] = os.path.join(os.path.dirname(env["GLAMSIM_OPS"]), "intops_generated.rs")
     env.update(extra_env or {})
     t0 = time.time()
     p = subprocess.run(cmd, env=env, cwd=SIM, stdout=subprocess.PIPE, stderr=subprocess.STDOUT, text=True)
@@ -180,7 +200,8 @@ def build(cfg, extra_env=None):
 def build_all(cfgs):
     """Build several configurations concurrently (each has its own target dir)."""
     from concurrent.futures import ThreadPoolExecutor
-    with ThreadPoolExecutor(max_workers=max(1, len(cfgs))) as ex:
+    # at most six compilations at a time: each rustc of the generated op table takes 2-4 GB and 16 codegen threads
+    with ThreadPoolExecutor(max_workers=max(1, min(6, len(cfgs)))) as ex:
         futs = {c: ex.submit(build, c) for c in cfgs}
         errs = []
         for c, f in futs.items():
@@ -254,8 +275,7 @@ def miri_cmd(cfg, args):
     if cfg == "miri-rel":
         # cfg(not(debug_assertions)) paths: an uninitialised read there is visible to neither ASan nor the dev-profile interpreter
         cmd.append("--release")
-    if feat:
-        cmd += ["--features", feat]
+    cmd += ["--features", "std" + ("," + feat if feat else "")]
     return cmd + ["--"] + [str(a) for a in args]
 
 
@@ -264,6 +284,9 @@ def miri_env(cfg):
     env["MIRIFLAGS"] = MIRI_FLAGS
     env["GLAMSIM_OPS"] = gen_ops(cfg)[0]
     env["GLAMSIM_INT"] = os.path.join(os.path.dirname(env["GLAMSIM_OPS"]), "int_generated.rs")
+    if cfg == "miri-int":
+        # the interpreter over the op table of the integer vector types
+        env["GLAMSIM_OPS"] = os.path.join(os.path.dirname(env["GLAMSIM_OPS"]), "intops_generated.rs")
     # cargo-miri records the bin crate's build environment once and replays it at run time; cargo does not notice a changed
     # env!() input by itself. Invalidate the recorded invocation whenever the ops path is not the one recorded before.
     td = target_dir(cfg)
@@ -383,7 +406,7 @@ def asan_binary():
     env["GLAMSIM_OPS"] = gen_ops("asan")[0]
     env["GLAMSIM_INT"] = os.path.join(os.path.dirname(env["GLAMSIM_OPS"]), "int_generated.rs")
     cmd = ["cargo", "+nightly", "build", "--release", "--offline", "--manifest-path", manifest_path(), "--no-default-features",
-           "--target", "x86_64-unknown-linux-gnu", "--target-dir", target_dir("asan")]
+           "--features", "std", "--target", "x86_64-unknown-linux-gnu", "--target-dir", target_dir("asan")]
     t0 = time.time()
     p = subprocess.run(cmd, env=env, cwd=SIM, stdout=subprocess.PIPE, stderr=subprocess.STDOUT, text=True)
     if p.returncode != 0:
@@ -423,7 +446,7 @@ def native_rustflags():
         (feats if cpu_has(cpuname.get(a, a)) else unsupported).append(a)
     _native["flags"] = "-C target-feature=" + ",".join("+" + f for f in feats)
     _native["atoms"] = {"in_source": sorted(atoms), "enabled": feats, "not_supported_by_this_cpu": unsupported}
-    for c in ("native", "native-fast"):
+    for c in ("native", "native-fast", "native-fast-dbg"):
         CONFIGS[c]["rustflags"] = _native["flags"]
     return _native["flags"], _native["atoms"]
 
@@ -435,21 +458,275 @@ def feature_atoms():
         for f in files:
             if f.endswith(".rs"):
                 atoms.update(re.findall(r'feature\s*=\s*"([A-Za-z0-9_-]+)"', re.sub(r'target_feature\s*=\s*"[^"]*"', "", open(os.path.join(root, f), errors="replace").read())))
-    interop = {"serde", "bytemuck", "mint", "rkyv", "bytecheck", "approx"}
+    interop = {"serde", "bytemuck", "mint", "rkyv", "approx"}
     where = {}
     for a in sorted(atoms):
         cfgs = [c for c, d in CONFIGS.items() if a in d["features"] or (a in interop and "interop" in d["features"])]
-        if a == "std":
-            cfgs = ["all (the simulator is a std program)"]
         where[a] = cfgs
     return where
+
+
+def negated_feature_atoms():
+    """cargo features that occur under not(..) in a cfg of the sources, and the configurations that leave each one OFF
+    (so that the negative arm is compiled)"""
+    neg = set()
+    for root, _, files in os.walk(os.path.join(REPO, "src")):
+        for f in files:
+            if f.endswith(".rs"):
+                txt = open(os.path.join(root, f), errors="replace").read()
+                for m in re.finditer(r'not\(\s*(?:any|all)?\(?([^)]*)\)', txt):
+                    neg.update(re.findall(r'(?<!target_)feature\s*=\s*"([A-Za-z0-9_-]+)"', m.group(1)))
+    interop = {"serde", "bytemuck", "mint", "rkyv", "approx"}
+    out = {}
+    for a in sorted(neg):
+        out[a] = [c for c, d in CONFIGS.items() if not (a in d["features"] or (a in interop and "interop" in d["features"]))]
+    return out
+
+
+# ------------------------------------------------------------------------------------------------
+# cfg predicates: every `cfg(..)` / `cfg_attr(.., ..)` / `cfg!(..)` predicate of the working tree's sources is evaluated
+# under each registered configuration; a predicate that is true in none of them guards code that no build under test
+# contains. Where such a predicate is satisfiable on this host, a configuration satisfying it is synthesised and run.
+
+TF_IMPLIES = {"avx512f": ["avx2", "fma"], "avx2": ["avx"], "fma": ["avx"], "avx": ["sse4.2"], "sse4.2": ["sse4.1"], "sse4.1": ["ssse3"], "ssse3": ["sse3"],
+              "sse3": ["sse2"], "sse2": ["sse"], "bmi2": [], "bmi1": [], "lzcnt": [], "popcnt": [], "f16c": ["avx"]}
+TF_CPUNAME = {"sse4.1": "sse4_1", "sse4.2": "sse4_2", "lzcnt": "abm", "sse3": "pni"}
+GLAM_FEATURE_OF = {"std": ["std"], "interop": ["serde", "bytemuck", "mint", "rkyv", "approx"], "bytecheck": ["bytecheck"], "scalar-math": ["scalar-math"],
+                   "core-simd": ["core-simd"], "glam-assert": ["glam-assert"], "debug-glam-assert": ["debug-glam-assert"], "libm": ["libm"],
+                   "nostd-libm": ["nostd-libm"], "fast-math": ["fast-math"], "cuda": ["cuda"]}
+# predicates nothing here can or should satisfy, with the reason
+CFG_EXEMPT_ATOMS = {("flag", "test"): "glam's own unit tests",
+                    ("feature", "rand"): "optional `rand` distributions: code that no claimed property's workload reaches",
+                    ("feature", "$feature"): "macro variable"}
+
+
+def _cfg_extract(txt):
+    out = []
+    for m in re.finditer(r'\bcfg(_attr)?!?\s*\(', txt):
+        i = m.end(); depth = 1; j = i
+        while j < len(txt) and depth > 0:
+            c = txt[j]
+            if c == '(':
+                depth += 1
+            elif c == ')':
+                depth -= 1
+            elif c == '"':
+                j = txt.index('"', j + 1)
+            j += 1
+        body = txt[i:j - 1]
+        if m.group(1):
+            d = 0
+            for k, c in enumerate(body):
+                if c == '(':
+                    d += 1
+                elif c == ')':
+                    d -= 1
+                elif c == ',' and d == 0:
+                    body = body[:k]
+                    break
+        out.append(re.sub(r'\s+', ' ', body.strip()))
+    return out
+
+
+def _cfg_parse(toks, i=0):
+    t = toks[i]
+    if t in ("all", "any", "not") and i + 1 < len(toks) and toks[i + 1] == "(":
+        i += 2
+        args = []
+        while toks[i] != ")":
+            a, i = _cfg_parse(toks, i)
+            args.append(a)
+            if toks[i] == ",":
+                i += 1
+        return (t, args), i + 1
+    if i + 1 < len(toks) and toks[i + 1] == "=":
+        return ("kv", t, toks[i + 2].strip('"')), i + 3
+    return ("flag", t), i + 1
+
+
+def _cfg_eval(p, A):
+    k = p[0]
+    if k == "all":
+        return all(_cfg_eval(x, A) for x in p[1])
+    if k == "any":
+        return any(_cfg_eval(x, A) for x in p[1])
+    if k == "not":
+        return not _cfg_eval(p[1][0], A)
+    if k == "kv":
+        if p[1] == "feature":
+            return p[2] in A["features"]
+        if p[1] == "target_feature":
+            return p[2] in A["tf"]
+        return A.get(p[1]) == p[2]
+    return bool(A.get(p[1], False))
+
+
+def _cfg_atoms(p, acc):
+    if p[0] in ("all", "any", "not"):
+        for x in p[1]:
+            _cfg_atoms(x, acc)
+    elif p[0] == "kv":
+        acc.add((p[1], p[2]))
+    else:
+        acc.add(("flag", p[1]))
+    return acc
+
+
+def _tf_closure(fs):
+    out, todo = set(), list(fs)
+    while todo:
+        f = todo.pop()
+        if f not in out:
+            out.add(f)
+            todo += TF_IMPLIES.get(f, [])
+    return out
+
+
+def cfg_assignment(c):
+    d = CONFIGS[c]
+    feats = set()
+    for f in d["features"]:
+        feats.update(GLAM_FEATURE_OF.get(f, [f]))
+    tf = {"sse", "sse2", "fxsr"} | _tf_closure(re.findall(r'\+([A-Za-z0-9_.]+)', d["rustflags"]))
+    return {"features": feats, "tf": tf, "debug_assertions": d["profile"] == "dev", "target_arch": "x86_64", "target_os": "linux",
+            "target_pointer_width": "64", "target_endian": "little", "target_family": "unix", "unix": True}
+
+
+_cfgcov = {}
+
+
+def cfg_coverage(used, exempt=()):
+    """Evaluate every cfg predicate of the sources under the configurations `used` by a check. For a predicate true in none
+    of them: borrow a registered configuration that satisfies it, else synthesise one (registered as auto-N), else say why
+    not. `exempt`: glam features the property excludes (never turned on to satisfy a predicate).
+    -> (table, extra): table[predicate] = {"true_in": [...], ...}; extra = borrowed + synthesised configuration names."""
+    native_rustflags()
+    if "preds" not in _cfgcov:
+        preds = {}
+        for root, _, files in os.walk(os.path.join(REPO, "src")):
+            for f in sorted(files):
+                if f.endswith(".rs"):
+                    for b in _cfg_extract(open(os.path.join(root, f), errors="replace").read()):
+                        preds.setdefault(b, os.path.relpath(os.path.join(root, f), REPO))
+        _cfgcov["preds"] = preds
+    preds = _cfgcov["preds"]
+    exempt = set(exempt)
+    registered = [c for c in CONFIGS if c not in ("int-rel", "int-dbg")]
+    assign = {c: cfg_assignment(c) for c in registered}
+    table, extra = {}, []
+    for text in sorted(preds):
+        try:
+            p, _ = _cfg_parse(re.findall(r'"[^"]*"|[A-Za-z_][A-Za-z0-9_]*|[(),=]|\$\w+', text))
+        except Exception:
+            table[text] = {"true_in": [], "why": "not parsed", "first_seen_in": preds[text]}
+            continue
+        true_in = [c for c in list(used) + extra if c in assign and _cfg_eval(p, assign[c])]
+        if true_in:
+            table[text] = {"true_in": true_in}
+            continue
+        entry = {"true_in": [], "first_seen_in": preds[text]}
+        borrow = next((c for c in registered if c not in used and _cfg_eval(p, assign[c]) and not (assign[c]["features"] & exempt)
+                       and (not c.startswith("native") or cpu_has("fma", "avx2"))), None)
+        if borrow:
+            extra.append(borrow)
+            entry["true_in"] = [borrow]
+            entry["borrowed"] = True
+            table[text] = entry
+            continue
+        atoms = sorted(_cfg_atoms(p, set()))
+        found = None
+        for bits in __import__("itertools").product([False, True], repeat=len(atoms)):
+            A = cfg_assignment("sse2-rel")
+            A["features"] = set(A["features"]); A["tf"] = set(A["tf"])
+            fixed = False
+            for (kind, name), on in zip(atoms, bits):
+                if kind == "feature":
+                    (A["features"].add if on else A["features"].discard)(name)
+                elif kind == "target_feature":
+                    (A["tf"].add if on else A["tf"].discard)(name)
+                elif kind == "flag" and name == "debug_assertions":
+                    A["debug_assertions"] = on
+                elif on != _cfg_eval(("kv", kind, name) if kind != "flag" else ("flag", name), A):
+                    fixed = True
+            if fixed:
+                continue
+            A["tf"] = _tf_closure(A["tf"])
+            if not _cfg_eval(p, A):
+                continue
+            if any(kind == "target_feature" and (name in A["tf"]) != on for (kind, name), on in zip(atoms, bits)):
+                continue
+            f = A["features"]
+            if f & exempt:
+                entry.setdefault("why", "needs a feature this property excludes: %s" % ",".join(sorted(f & exempt)))
+                continue
+            extra_tf = sorted(A["tf"] - {"sse", "sse2", "fxsr"})
+            if not all(cpu_has(TF_CPUNAME.get(t, t)) for t in extra_tf):
+                entry["why"] = "needs target features this CPU lacks: %s" % ",".join(t for t in extra_tf if not cpu_has(TF_CPUNAME.get(t, t)))
+                continue
+            if "std" not in f and "libm" not in f and "nostd-libm" not in f:
+                entry.setdefault("why", "invalid feature combination (glam needs std or libm)")
+                continue
+            groups, ok = [], True
+            inter = set(GLAM_FEATURE_OF["interop"])
+            if f & inter:
+                ok = inter <= f  # the simulator enables the optional-dependency features as one group
+                groups.append("interop")
+            for g in f - inter:
+                if g not in GLAM_FEATURE_OF:
+                    ok = False
+                else:
+                    groups.append(g)
+            if not ok:
+                entry.setdefault("why", "satisfiable, but not with the feature groups the simulator can build")
+                continue
+            found = dict(tc="nightly" if "core-simd" in f else None, features=sorted(groups), profile="dev" if A["debug_assertions"] else "release",
+                         rustflags=("-C target-feature=" + ",".join("+" + t for t in extra_tf)) if extra_tf else "")
+            # the configuration as it will really be built (baseline target features cannot be switched off) must satisfy it
+            CONFIGS["auto-probe"] = found
+            really = _cfg_eval(p, cfg_assignment("auto-probe"))
+            del CONFIGS["auto-probe"]
+            if not really:
+                found = None
+                entry.setdefault("why", "needs a baseline target feature switched off")
+                continue
+            break
+        if found:
+            name = next((n for n in CONFIGS if n.startswith("auto-") and CONFIGS[n] == found), None)
+            if name is None:
+                name = "auto-%d" % (1 + sum(1 for n in CONFIGS if n.startswith("auto-")))
+                CONFIGS[name] = found
+                BACKEND_FEATURE[name] = "scalar-math" if "scalar-math" in found["features"] else ("core-simd" if "core-simd" in found["features"] else None)
+                assign[name] = cfg_assignment(name)
+            if name not in extra:
+                extra.append(name)
+            entry["true_in"] = [name]
+            entry["synthesised"] = found
+        else:
+            ex = [CFG_EXEMPT_ATOMS[a] for a in atoms if a in CFG_EXEMPT_ATOMS]
+            if ex:
+                entry["why"] = ex[0]
+            elif any(k == "target_arch" for k, _ in atoms) or any(n in ("simd128", "neon") for _, n in atoms):
+                entry.setdefault("why", "another target architecture")
+            entry.setdefault("why", "not satisfiable on this host")
+        table[text] = entry
+    return table, extra
+
+
+def cfg_summary(table, extra):
+    return {"predicates": len(table),
+            "true_in_some_configuration_run": sum(1 for v in table.values() if v["true_in"]),
+            "configurations_added_to_satisfy_a_predicate": extra,
+            "synthesised": {k: v["synthesised"] for k, v in table.items() if "synthesised" in v},
+            "true_in_no_configuration": {k: v.get("why", "?") for k, v in table.items() if not v["true_in"]},
+            "limits": "predicates are taken one by one (nested cfg regions are not conjoined); profile-dependent behaviour without a cfg "
+                      "(overflow checks) is covered by running the feature variants in both profiles where the property depends on it"}
 
 
 def available_configs(names):
     out, skipped = [], []
     native_rustflags()
     for n in names:
-        if n in ("native", "native-fast") and not cpu_has("fma", "avx2"):
+        if n.startswith("native") and not cpu_has("fma", "avx2"):
             skipped.append((n, "CPU lacks fma/avx2"))
             continue
         out.append(n)
@@ -491,6 +768,9 @@ def write_replay(prop, v):
     os.makedirs(d, exist_ok=True)
     rep = dict(v["replay"])
     rep["config"] = v["config"]
+    if str(v["config"]).startswith("auto-") and v["config"] in CONFIGS:
+        # a synthesised configuration exists only in the process that derived it: the replay carries its definition
+        rep["config_definition"] = CONFIGS[v["config"]]
     h = hashlib.sha1(json.dumps(rep, sort_keys=True).encode()).hexdigest()[:10]
     p = os.path.join(d, "%s-%s-%s.json" % (prop, v["config"], h))
     json.dump(rep, open(p, "w"), indent=1)
@@ -504,8 +784,12 @@ def replay_file(path):
     if rep.get("kind") == "cross-build":
         return rep, replay_cross_build(rep, path)
     cfg = rep.get("config")
+    if cfg not in CONFIGS and isinstance(rep.get("config_definition"), dict):
+        d = rep["config_definition"]
+        CONFIGS[cfg] = dict(tc=d.get("tc"), features=list(d.get("features", [])), profile=d.get("profile", "release"), rustflags=d.get("rustflags", ""))
+        BACKEND_FEATURE[cfg] = "scalar-math" if "scalar-math" in CONFIGS[cfg]["features"] else ("core-simd" if "core-simd" in CONFIGS[cfg]["features"] else None)
     try:
-        if cfg in ("miri", "miri-rel", "miri-scalar", "miri-coresimd"):
+        if cfg in ("miri", "miri-int", "miri-rel", "miri-scalar", "miri-coresimd"):
             res = run_miri(cfg, ["replay", "--file", path])
         elif cfg == "asan" and rep.get("part") == "asan-run":
             run_asan(rep["cmd"])
@@ -570,6 +854,8 @@ def write_evidence(prop, tier, seed, level, coverage, assumptions, wall, nviol):
         coverage["build_time_inputs"] = {
             "cargo_features_in_source_cfgs": fa,
             "cargo_features_compiled_in_by_no_configuration": sorted(a for a, c in fa.items() if not c),
+            "cargo_features_under_not_and_configurations_without_them": negated_feature_atoms(),
+            "negated_cargo_features_left_off_by_no_configuration": sorted(a for a, c in negated_feature_atoms().items() if not c),
             "target_features": native_rustflags()[1],
             "configurations": {c: {"features": CONFIGS[c]["features"], "profile": CONFIGS[c]["profile"], "rustflags": CONFIGS[c]["rustflags"],
                                    "toolchain": CONFIGS[c]["tc"] or "stable"} for c in coverage.get("configurations_run", []) if c in CONFIGS},
@@ -603,8 +889,10 @@ COMPONENTS = {
 
 def check_c19(tier, seed):
     t0 = time.time()
-    cfgs, skipped = available_configs(["sse2-rel", "scalar", "coresimd", "cuda", "scalar-cuda"] + (["sse2-dbg", "native", "native-fast"] if tier == "thorough" else []))
+    cfgs, skipped = available_configs(["sse2-rel", "scalar", "coresimd", "cuda", "scalar-cuda", "nostd", "nocheck"] + (["sse2-dbg", "scalar-dbg", "native", "native-fast", "libm"] if tier == "thorough" else []))
     values = 8 if tier == "quick" else 400
+    cfg_table, cfg_extra = cfg_coverage(cfgs)
+    cfgs = cfgs + cfg_extra
     build_all(cfgs)
     det = selftest_determinism("sse2-rel", seed, [["c19", "--values", 2]], seeds=2 if tier == "quick" else 8)
     results = {}
@@ -649,6 +937,7 @@ def check_c19(tier, seed):
         "samples": results[ref_cfg]["samples"],
         "configurations_run": cfgs,
         "configurations_skipped": skipped,
+        "cfg_predicate_coverage": cfg_summary(cfg_table, cfg_extra),
         "fault_kinds_fired": fired,
         "fault_kinds_effective": effective,
         "fault_kinds_stuck_at_zero": stuck,
@@ -709,16 +998,19 @@ def selftest_determinism(cfg, seed, cmds, seeds=4):
 
 def check_c08(tier, seed):
     t0 = time.time()
-    names = ["sse2-rel", "sse2-dbg", "coresimd", "native", "sse2-assert", "native-fast", "sse2-dbg-assert"]
+    names = ["sse2-rel", "sse2-dbg", "coresimd", "sse2-assert", "native-fast", "sse2-dbg-assert", "nostd"] + (["native", "libm", "cuda", "coresimd-dbg", "native-fast-dbg", "nostd-dbg"] if tier == "thorough" else [])
     cfgs, skipped = available_configs(names)
     skipped.append(("scalar", "the padding lane does not exist under scalar-math (the property says so)"))
-    runs = {"quick": {"sse2-rel": 300000, "sse2-dbg": 40000, "coresimd": 300000, "native": 150000, "sse2-assert": 150000, "native-fast": 100000, "sse2-dbg-assert": 20000},
-            "thorough": {"sse2-rel": 6000000, "sse2-dbg": 500000, "coresimd": 6000000, "native": 6000000, "sse2-assert": 3000000, "native-fast": 3000000, "sse2-dbg-assert": 300000}}[tier]
+    runs = {"quick": {"sse2-rel": 300000, "sse2-dbg": 40000, "coresimd": 300000, "native": 150000, "sse2-assert": 150000, "native-fast": 150000, "sse2-dbg-assert": 20000, "nostd": 100000},
+            "thorough": {"sse2-rel": 6000000, "sse2-dbg": 500000, "coresimd": 6000000, "native": 6000000, "sse2-assert": 3000000, "native-fast": 3000000, "sse2-dbg-assert": 300000, "nostd": 2000000, "libm": 1000000, "cuda": 1000000}}[tier]
+    cfg_table, cfg_extra = cfg_coverage(cfgs, exempt=["scalar-math"])
+    cfgs = cfgs + cfg_extra
     build_all(cfgs)
     det = selftest_determinism("sse2-rel", seed, [["c08", "--runs", 2000]], seeds=4 if tier == "quick" else 32)
     results = []
     for c in cfgs:
-        results.append((c, run_sim(c, ["c08", "--seed", seed, "--runs", runs[c], "--workers", NCPU])))
+        n = runs.get(c, 100000 if tier == "quick" else 1000000) // (8 if CONFIGS[c]["profile"] == "dev" and c not in runs else 1)
+        results.append((c, run_sim(c, ["c08", "--seed", seed, "--runs", n, "--workers", NCPU])))
     viols, fired, effective, probes = [], {}, {}, {}
     evals = collect(results, viols, fired, effective, probes)
     miri = None
@@ -741,6 +1033,7 @@ def check_c08(tier, seed):
         "samples": ref["samples"][:2],
         "configurations_run": [c for c, _ in results],
         "configurations_skipped": skipped,
+        "cfg_predicate_coverage": cfg_summary(cfg_table, cfg_extra),
         "programs_per_configuration": {c: r["evaluations"] for c, r in results},
         "grid_programs_per_configuration": {c: r["extra"].get("grid_programs") for c, r in results},
         "fault_kinds_fired": fired,
@@ -773,13 +1066,15 @@ def check_c08(tier, seed):
 
 def check_c17(tier, seed):
     t0 = time.time()
-    cfgs, skipped = available_configs(["sse2-rel", "scalar", "coresimd", "sse2-dbg", "native-fast", "cuda", "scalar-cuda"] + (["native"] if tier == "thorough" else []))
+    cfgs, skipped = available_configs(["sse2-rel", "scalar", "coresimd", "sse2-dbg", "native-fast", "cuda", "scalar-cuda", "nostd"] + (["native", "libm", "scalar-dbg", "coresimd-dbg", "native-fast-dbg", "nostd-dbg"] if tier == "thorough" else []))
+    cfg_table, cfg_extra = cfg_coverage(cfgs)
+    cfgs = cfgs + cfg_extra
     build_all(cfgs)
     hist = {"quick": 1500, "thorough": 40000}[tier]
     det = selftest_determinism("sse2-rel", seed, [["c17", "--histories", 60, "--no-grid"]], seeds=2 if tier == "quick" else 16)
     results, results_ff = [], []
     for c in cfgs:
-        h = hist if c != "sse2-dbg" else max(200, hist // 10)
+        h = hist if CONFIGS[c]["profile"] != "dev" else max(200, hist // 10)
         results.append((c, run_sim(c, ["c17", "--seed", seed, "--histories", h, "--workers", NCPU])))
         # the same histories without any injected fault, so that a fault relaxation cannot hide an ordinary bug
         results_ff.append((c, run_sim(c, ["c17", "--seed", seed, "--histories", max(100, h // 3), "--workers", NCPU, "--no-faults", "--no-grid"])))
@@ -811,6 +1106,7 @@ def check_c17(tier, seed):
         "samples": ref["samples"][:2],
         "configurations_run": cfgs + list(monitors),
         "configurations_skipped": skipped,
+        "cfg_predicate_coverage": cfg_summary(cfg_table, cfg_extra),
         "histories_per_config": {c: r["evaluations"] for c, r in results},
         "fault_free_histories_per_config": {c: r["evaluations"] for c, r in results_ff},
         "steps_executed": sum(r["extra"]["steps_executed"] for _, r in results + results_ff),
@@ -843,10 +1139,17 @@ def check_c17(tier, seed):
 
 def check_c18(tier, seed):
     t0 = time.time()
-    cfgs, skipped = available_configs(["sse2-rel", "sse2-dbg", "scalar", "coresimd", "native", "native-fast"])
+    cfgs, skipped = available_configs(["sse2-rel", "sse2-dbg", "scalar", "scalar-dbg", "coresimd", "coresimd-dbg", "native-fast", "nostd", "nostd-dbg"]
+                                       + (["native", "native-fast-dbg"] if tier == "thorough" else []))
     # alignment variants: only the memory cases and the conversions depend on them
     layout_cfgs = ["cuda", "scalar-cuda"]
-    build_all(cfgs + ["libm"] + layout_cfgs)
+    # the generated op table of the 27 integer vector types (every fn / operator / conversion / swizzle / fmt): nothing but
+    # primitive integer arithmetic may panic (c18i judges where exactly); release and debug profile
+    int_cfgs = ["int-rel", "int-dbg"]
+    math_cfgs = ["libm"] if tier == "thorough" else []
+    cfg_table, cfg_extra = cfg_coverage(cfgs + math_cfgs + layout_cfgs, exempt=["glam-assert", "debug-glam-assert"])
+    cfgs = cfgs + cfg_extra
+    build_all(cfgs + math_cfgs + layout_cfgs + int_cfgs)
     rounds = 2 if tier == "quick" else 24
     samples = 512 if tier == "quick" else 20000
     crash_viols = []
@@ -861,10 +1164,10 @@ def check_c18(tier, seed):
             results_m.append((c, run_sim(c, ["c18m", "--seed", seed, "--rounds", rounds])))
         except CrashFound as e:
             crash_viols.append(crash_violation(e, seed, "Guarded"))
-        results_p.append((c, run_sim(c, ["c18p", "--seed", seed, "--samples", samples if c != "sse2-dbg" else max(8, samples // 2), "--workers", NCPU])))
+        results_p.append((c, run_sim(c, ["c18p", "--seed", seed, "--samples", samples if CONFIGS[c]["profile"] != "dev" else max(8, samples // 2), "--workers", NCPU])))
         results_i.append((c, run_sim(c, ["c18i", "--seed", seed, "--samples", 300 if tier == "quick" else 20000, "--workers", NCPU])))
         results_c.append((c, run_sim(c, ["conv", "--seed", seed, "--rounds", 200 if tier == "quick" else 20000])))
-        nchain = (1000000 if tier == "quick" else 60000000) // (8 if c == "sse2-dbg" else 1)
+        nchain = (1000000 if tier == "quick" else 60000000) // (8 if CONFIGS[c]["profile"] == "dev" else 1)
         results_ch.append((c, run_sim(c, ["c18chain", "--seed", seed, "--runs", nchain, "--workers", NCPU])))
     for c in layout_cfgs:
         try:
@@ -872,8 +1175,11 @@ def check_c18(tier, seed):
         except CrashFound as e:
             crash_viols.append(crash_violation(e, seed, "Guarded"))
         results_c.append((c, run_sim(c, ["conv", "--seed", seed, "--rounds", 200 if tier == "quick" else 20000])))
+    for c in int_cfgs:
+        results_p.append((c, run_sim(c, ["c18p", "--seed", seed, "--samples", 128 if tier == "quick" else 4000, "--workers", NCPU])))
     # math-backend variant: only the hostile sweep depends on it
-    results_p.append(("libm", run_sim("libm", ["c18p", "--seed", seed, "--samples", samples, "--workers", NCPU])))
+    for c in math_cfgs:
+        results_p.append((c, run_sim(c, ["c18p", "--seed", seed, "--samples", samples, "--workers", NCPU])))
     viols, fired, effective, probes = list(crash_viols), {}, {}, {}
     evals = collect(results_m, viols, fired, effective, probes)
     evals += collect(results_p, viols, fired, effective, probes)
@@ -887,9 +1193,41 @@ def check_c18(tier, seed):
     #             special, all-zero and one structured argument set; quick: two of the four per op)
     #  conv     : pointer-cast / union / aligned-temporary conversions of the SIMD matrix and vector types
     #  histories: short format-free C17 histories of the SIMD-backed vector types (Deref overlays, AsRef/AsMut, to_array ...)
-    miri_cfgs = ["miri"] if tier == "quick" else ["miri", "miri-scalar", "miri-coresimd", "miri-rel"]
+    miri_cfgs = ["miri", "miri-int"] if tier == "quick" else ["miri", "miri-int", "miri-scalar", "miri-coresimd", "miri-rel"]
     for mc in miri_cfgs:
         jobs = []
+        if mc == "miri-int":
+            # every function / operator / conversion / swizzle of the 27 integer vector types once (thorough: twice) under the
+            # interpreter: an uninitialised or out-of-bounds read that leaves results unchanged is invisible everywhere else
+            # (11 000 ops at ~0.3 s each: the quick tier takes every other shard, which half alternates with the seed)
+            # (11 000 ops at ~0.3 s each, half of them swizzles: the quick tier runs every non-swizzle op and every other shard of
+            # the swizzles, which half alternates with the seed)
+            # (an interpreter process costs ~50 s before its first call: one wave of NCPU processes in the quick tier)
+            of = NCPU
+            if tier == "quick":
+                nsw = max(1, NCPU * 3 // 4)
+                for i in range(nsw):
+                    jobs.append(("every-int-op", ["c18p", "--once", "--seed", seed, "--shard", i, "--of", nsw, "--calls", 1, "--swizzles", 1]))
+                sw = 2 * max(1, NCPU - nsw)
+                for i in range(sw):
+                    if (i + seed) % 2 == 0:
+                        jobs.append(("every-int-op", ["c18p", "--once", "--seed", seed, "--shard", i, "--of", sw, "--calls", 1, "--swizzles", 2]))
+            for i in range(of):
+                if tier == "quick":
+                    break
+                else:
+                    jobs.append(("every-int-op", ["c18p", "--once", "--seed", seed, "--shard", i, "--of", 2 * of, "--calls", 2]))
+                    jobs.append(("every-int-op", ["c18p", "--once", "--seed", seed, "--shard", i + of, "--of", 2 * of, "--calls", 2]))
+            res, crashes = run_miri_pool(mc, jobs)
+            for label, r in res.items():
+                monitors["%s-%s" % (mc, label)] = {"calls_or_cases": r["evaluations"], "violations": r["violations_total"], "ub_reports": 0}
+                evals += r["evaluations"]
+                for v in r["violations"]:
+                    v = dict(v); v["config"] = mc; viols.append(v)
+            for label, e in crashes.items():
+                monitors["%s-%s" % (mc, label)] = {"ub_reports": 1, "what": e.what, "case": e.case}
+                viols.append(crash_violation(e, seed, "Heap"))
+            continue
         mem_groups = SIMD_GROUPS if tier == "quick" else [[t] for g in TYPE_GROUPS for t in g]
         for g in mem_groups:
             jobs.append(("memory", ["c18m", "--seed", seed, "--rounds", 1, "--mem", "heap", "--types", ",".join(g)] + (["--subset"] if tier == "quick" else [])))
@@ -964,8 +1302,9 @@ def check_c18(tier, seed):
                 "distinct = distinct memory cases + distinct argument tuples actually executed (max over configurations)",
         "exhaustive": False,
         "samples": refm["samples"][:3] + refp["samples"][:3],
-        "configurations_run": cfgs + list(monitors),
+        "configurations_run": cfgs + layout_cfgs + int_cfgs + math_cfgs + list(monitors),
         "configurations_skipped": skipped,
+        "cfg_predicate_coverage": cfg_summary(cfg_table, cfg_extra),
         "memory_cases_per_config": {c: r["evaluations"] for c, r in results_m},
         "memory_extra": refm["extra"],
         "hostile_calls_per_config": {c: r["evaluations"] for c, r in results_p},
@@ -976,6 +1315,12 @@ def check_c18(tier, seed):
         "integer_operators": results_i[0][1]["extra"]["integer_ops"],
         "integer_primitive_panics_matched_per_config": {c: r["faults_effective"].get("INT_EDGE_VALUE", 0) for c, r in results_i},
         "ops_per_config": {c: r["extra"]["ops"] for c, r in results_p},
+        "integer_table": {"what": "configurations int-rel / int-dbg run the same sweep over the generated table of the 27 integer vector types "
+                                  "(every fn, operator, conversion, swizzle, fmt, Sum/Product, field access): a panic is accepted only in a function "
+                                  "defined through primitive arithmetic and only with the primitive's own message",
+                          "documented_arithmetic_panics_observed": {c: r["extra"].get("documented_integer_arithmetic_panics_observed") for c, r in results_p if c.startswith("int-")},
+                          "uncovered_api": api[cfgs[0]].get("int_table", {}).get("uncovered_api", [])[:0],
+                          "signatures_outside_vocabulary_covered_by_c18i": len(api[cfgs[0]].get("int_table", {}).get("uncovered_api", []))},
         "fault_kinds_fired": fired,
         "fault_kinds_effective": effective,
         "fault_kinds_stuck_at_zero": sorted(k for k, v in effective.items() if v == 0),
@@ -1042,7 +1387,7 @@ def main():
     a = ap.parse_args()
     try:
         if a.setup:
-            build_all(available_configs(["sse2-rel", "sse2-dbg", "scalar", "coresimd", "native", "sse2-assert", "libm"])[0])
+            build_all(available_configs(QUICK_CONFIGS)[0])
             return 0
         if a.replay:
             rep, res = replay_file(a.replay)
